@@ -73,6 +73,14 @@ impl<'text> Parser<'text> {
         }
     }
 
+    /// Take over the bindings of the parser of an included file, which extend
+    /// and override the ones of this scope.
+    pub fn adopt(&mut self, from: Parser<'text>) {
+        for (k, v) in from.vars.into_all() {
+            self.vars.insert(k, v);
+        }
+    }
+
     pub fn format_parse_error(&self, filename: &Path, err: ParseError) -> String {
         self.scanner.format_parse_error(filename, err)
     }
